@@ -823,7 +823,29 @@ def falsy_docs(tier, rng):
     return out
 
 
+BASE_RULES3 = BASE_RULES + [{"title": "b3", "name": "third_rule", "logsource": {"product": "p"},
+                             "detection": {"sel": {"h": "z"}, "condition": "sel"}}]
+
+
+def ordered_rules_docs():
+    """fixed cases (every tier): temporal correlation rules with an extended condition AND an explicit rule list in every
+    order relative to the order in which the expression mentions the rules; the rule list order is part of the meaning"""
+    out = []
+    for t in ("temporal", "temporal_ordered"):
+        for names, exprs in ((["base", "other_rule", "third_rule"],
+                              ["other_rule and base and not third_rule", "base or (third_rule and other_rule)",
+                               "not third_rule and other_rule and base"]),
+                             (["base", "other_rule"], ["other_rule and base", "base and other_rule", "other_rule or not base"])):
+            for perm in itertools.permutations(names):
+                for e in exprs:
+                    for extra in ({}, {"group-by": ["u"], "generate": True}):
+                        c = dict({"type": t, "rules": list(perm), "timespan": "5m", "condition": e}, **extra)
+                        out.append({"kind": "corr", "doc": {"title": "ordered rules", "name": "corr_" + t, "correlation": c}, "base": BASE_RULES3})
+    return out
+
+
 def gen_doc(tier, rng):
+    fixed = ordered_rules_docs()
     out = falsy_docs(tier, rng)
     if tier == "quick":
         # the quick tier keeps every correlation-condition boundary case and a seeded half of the rest
@@ -833,6 +855,7 @@ def gen_doc(tier, rng):
         always = [c for c in out if keep(c)]
         rest = [c for c in out if not keep(c)]
         out = always + rng.sample(rest, min(len(rest), 700))
+    out = fixed + out
     n = 100 if tier == "quick" else 1500
     for _ in range(n):
         m = rmeta(rng, "rule"); m["logsource"] = rlogsource(rng); m["detection"] = loadable_section(rng)
